@@ -283,7 +283,7 @@ def _sig_chunk(args):
 def stage_sig(ctx):
     import multiprocessing as mp
     from ..par import NPROC
-    tab = S.make_sig_table(small=ctx.quick)
+    tab = S.make_sig_table(small=True if ctx.quick else "medium")
     names = tab["names"]
     fd, path = tempfile.mkstemp(prefix="vf-c03-sigtab-", suffix=".json")
     with os.fdopen(fd, "w") as f:
